@@ -456,6 +456,14 @@ def set_at(o, p, v):
 
 def edit_value(rng, v):
     """a different value of the same flavour"""
+    for _ in range(20):
+        w = _edit_value(rng, v)
+        if strict(w) != strict(v):
+            return w
+    return "edited"
+
+
+def _edit_value(rng, v):
     if isinstance(v, bool):
         return rng.choice([not v, int(v)])                       # True -> False, or True -> 1 (Python-equal, other bytes)
     if isinstance(v, int):
